@@ -14,11 +14,11 @@ import (
 
 // Script configures the stand-in helper for the scenario being explored.
 type Script struct {
-	FailStart   int      // the first FailStart Start calls fail
-	InLines     []string // lines the "in" helper writes, each when triggered
-	Trigger     *vsync.Chan[int]  // harness -> helper: write line i now
-	Written     *vsync.Chan[int]  // helper -> harness: line i was consumed (or the write failed: -1-i)
-	OutReceived *[]string // lines the "out" helper read from its stdin
+	FailStart   int              // the first FailStart Start calls fail
+	InLines     []string         // lines the "in" helper writes, each when triggered
+	Trigger     *vsync.Chan[int] // harness -> helper: write line i now
+	Written     *vsync.Chan[int] // helper -> harness: line i was consumed (or the write failed: -1-i)
+	OutReceived *[]string        // lines the "out" helper read from its stdin
 	Starts      int
 	Kills       int
 }
